@@ -179,6 +179,7 @@ func runC19(c *Ctx) {
 	c19Helper(c, p, helper, fns)
 	c19CheckMode(c, p)
 	c19JSON(c, p)
+	c19OptionNormalisation(c, c.P)
 }
 
 func c19Helper(c *Ctx, p *core.Prog, h *ssa.Function, fns []*ssa.Function) {
